@@ -640,17 +640,19 @@ void vf_finish(void) {
     }
 }
 
-#if VF_TSAN
 #include <sys/syscall.h>
-/* ThreadSanitizer runs the death callback while the reporting thread holds
+/* The in-flight case is written with raw system calls: the handler may run on
+ * a corrupted heap (glibc aborting inside free) where stdio/malloc fault
+ * again, and ThreadSanitizer runs the death callback while the reporting thread holds
  * runtime locks; anything instrumented or intercepted (stdio, malloc, even
  * plain memory accesses that roll the trace over) can deadlock there. So under
  * TSan the in-flight case is written with raw system calls from uninstrumented
  * code and the statistics of the dying worker are dropped. */
-__attribute__((no_sanitize("thread"))) static void raw_save(const char *path,
-                                                            const char *suffix,
-                                                            const void *data,
-                                                            size_t size) {
+#if VF_TSAN
+__attribute__((no_sanitize("thread")))
+#endif
+static void raw_save(const char *path, const char *suffix, const void *data,
+                     size_t size) {
     char full[4200];
     size_t n = 0;
     while (path[n] && n < 4096) {
@@ -677,7 +679,6 @@ __attribute__((no_sanitize("thread"))) static void raw_save(const char *path,
     }
     syscall(SYS_close, fd);
 }
-#endif
 
 #if VF_TSAN
 __attribute__((no_sanitize("thread")))
@@ -688,8 +689,9 @@ static void crash_dump(const char *why) {
         return;
     }
     once = 1;
-#if VF_TSAN
     {
+        /* first, with raw system calls only: the case must reach the disk even
+         * if everything below faults again */
         const char *path = getenv("VF_CRASH");
         if (path && g_cur) {
             size_t wl = 0;
@@ -699,18 +701,12 @@ static void crash_dump(const char *why) {
             raw_save(path, "", g_cur, g_curlen);
             raw_save(path, ".why", why, wl);
         }
-        return;
-    }
+#if VF_TSAN
+        return; /* no stdio under the TSan death callback */
 #endif
-    const char *path = getenv("VF_CRASH");
-    if (path && g_cur) {
-        vf_save_case(path, g_cur, g_curlen);
-        char wp[4096];
-        snprintf(wp, sizeof(wp), "%s.why", path);
-        vf_save_case(wp, (const uint8_t *)why, strlen(why));
     }
     g_violations++;
-    vf_finish();
+    vf_finish(); /* statistics of the dying worker; may fault on a bad heap */
 }
 
 static void on_signal(int sig) {
